@@ -165,6 +165,8 @@ def _np_where(it, a, k):
     c, x, y = a
     if isinstance(c, bool):
         return x if c else y
+    if isinstance(c, SymBool) and isinstance(x, (bool, SymBool)) and isinstance(y, (bool, SymBool)) and c.key not in it.assume:
+        return merge(it, c, x, y)
     if not (is_num(x) and is_num(y)):
         return NotImplemented
     if isinstance(c, SymBool):
@@ -339,7 +341,9 @@ def _power(it, a, k):
 
 def _lax_cond(it, a, k):
     pred, tf, ff = a[0], a[1], a[2]
-    ops = a[3:]
+    ops = list(a[3:])
+    if "operand" in k:
+        ops = [k["operand"]]
     if isinstance(pred, bool):
         return it.call(tf if pred else ff, ops, {})
     if isinstance(pred, SymBool) and pred.key in it.assume:
@@ -372,6 +376,12 @@ def merge(it, pred: SymBool, tv, fv):
         return tv.av_merge(pred, fv, True)
     if isinstance(fv, AbsVal) and hasattr(fv, "av_merge"):
         return fv.av_merge(pred, tv, False)
+    if isinstance(tv, (bool, SymBool)) and isinstance(fv, (bool, SymBool)):
+        from .values import sb_and, sb_not, sb_or
+
+        if isinstance(tv, bool) and isinstance(fv, bool) and tv == fv:
+            return tv
+        return sb_or(sb_and(pred, tv), sb_and(sb_not(pred), fv))
     if is_num(tv) and is_num(fv):
         T, F = to_rat(tv), to_rat(fv)
         if T.equals(F):
